@@ -104,6 +104,10 @@ RULE = ("for each attrs class of swh.model.model, each SWHID class and Immutable
         "objects used for two constructions (must be equal, hash alike, be one set member) and once separately built (model "
         "and implementation must agree; equal => equal hash); 10 % of the str / bytes values and mapping keys carry a string / "
         "bytes constant harvested from the source of the repository under test (harness/gitobj_common.source_tokens).  "
+        "FOREIGN containers (implementation only: refuse, or be immune and equal to the plain twin): MappingProxyType / UserDict "
+        "/ ChainMap / custom Mapping / Mapping over items() / ImmutableDict built from one of these, as ImmutableDict argument, "
+        "as metadata / branches, as the dictionary of from_dict; custom Sequence for tuple-typed fields and extra_headers; "
+        "array.array / memoryview for bytes fields - all views of a container the caller mutates afterwards.  "
         "non-trivial = at least one kept container argument is mutated after construction, or twins "
         "differing only in insertion order / eq=False fields, or a transport batch, or a returned-container probe; distinct = distinct case")
 TRUSTED = [
@@ -119,6 +123,15 @@ TRUSTED = [
     "by pre_checks against the real classes (identity / mutation probes) and against Generated.v by C11_arg_kinds_table",
 ]
 ASSUMPTIONS = [
+    "read-only views and other Mapping / Sequence / buffer implementations (MappingProxyType, UserDict, ChainMap, a custom "
+    "Mapping, a Mapping over an items() view, an ImmutableDict built from one of these; a custom Sequence, array.array, "
+    "memoryview) given where a mapping / tuple / bytes is accepted: the library may REFUSE them (observed on /repo: ValueError "
+    "from unpacking the keys in ImmutableDict(...), attrs_strict AttributeTypeError - a ValueError - for typed fields, "
+    "AttributeError in from_dict of a Mapping without .copy()); if it accepts them (on /repo: an empty Mapping, from_dict of a "
+    "proxy / UserDict / ChainMap, extra_headers as a custom Sequence) the object must be immune to later mutation of the "
+    "underlying container and equal to the twin built from the equal plain dict / tuple / bytes.  The generated keys of such "
+    "mappings never have 2 characters: on /repo ImmutableDict(<non-dict Mapping>) iterates the KEYS and unpacks each as a pair, "
+    "so UserDict({'ab': 1}) becomes {'a': 'b'} (reported, not counted)",
     "values whose == is unusual (float nan, Decimal NaN, objects whose __eq__ is always False / raises) are atoms whose "
     "equality is IDENTITY: that is what dict == and tuple == compute on /repo (`x is y or x == y`), hence what the inherited "
     "Mapping.__eq__ and the attrs __eq__ compute; two objects built from the SAME argument objects are equal even when a "
@@ -250,6 +263,69 @@ def new_dict(sub):
     return {}
 
 
+import collections.abc as _abc
+
+
+class ReadOnlyMapping(_abc.Mapping):
+    """a custom read-only Mapping that is only a VIEW of a dict its owner keeps"""
+    def __init__(self, d):
+        self._d = d
+
+    def __getitem__(self, k):
+        return self._d[k]
+
+    def __iter__(self):
+        return iter(self._d)
+
+    def __len__(self):
+        return len(self._d)
+
+
+class ItemsViewMapping(_abc.Mapping):
+    """a Mapping made from a dict's items() view"""
+    def __init__(self, d):
+        self._items = d.items()
+
+    def __getitem__(self, k):
+        for kk, v in self._items:
+            if kk == k:
+                return v
+        raise KeyError(k)
+
+    def __iter__(self):
+        return (k for k, _ in self._items)
+
+    def __len__(self):
+        return len(self._items)
+
+
+class ListView(_abc.Sequence):
+    """a custom read-only Sequence that is only a VIEW of a list its owner keeps"""
+    def __init__(self, lst):
+        self._l = lst
+
+    def __getitem__(self, i):
+        return self._l[i]
+
+    def __len__(self):
+        return len(self._l)
+
+
+MAPPING_VIEWS = ("proxy", "userdict", "chainmap", "romap", "viewmap", "idict_proxy", "idict_romap", "idict_userdict")
+
+
+def mapping_view(kind, d):
+    import collections
+    import types
+    _, ImmutableDict = _classes()
+    base = kind[6:] if kind.startswith("idict_") else kind
+    v = {"proxy": types.MappingProxyType, "userdict": collections.UserDict, "chainmap": collections.ChainMap,
+         "romap": ReadOnlyMapping, "viewmap": ItemsViewMapping}[base](d)
+    if base == "userdict":
+        v.data = d              # UserDict(d) copies: make it a view of the caller's dict, like the others
+    return ImmutableDict(v) if kind.startswith("idict_") else v
+
+
 class EqFalse:
     """== is always False (even with itself); containers still find it equal to itself by identity"""
     def __eq__(self, other):
@@ -345,6 +421,27 @@ def build(spec, kept, frozen=None, plain=False):
         return ba
     if t == "noarg":
         return NOARG
+    if t == "mp":                                       # a read-only VIEW / another Mapping over a dict the caller keeps
+        d = {}
+        kept.append(d)
+        for k, v in spec[1]:
+            d[build(k, kept, frozen, plain)] = build(v, kept, frozen, plain)
+        return d if plain else mapping_view(spec[2], d)
+    if t == "sq":                                       # a custom Sequence over a list the caller keeps
+        lst = []
+        kept.append(lst)
+        for x in spec[1]:
+            lst.append(build(x, kept, frozen, plain))
+        return tuple(lst) if plain else ListView(lst)
+    if t == "ar":                                       # array.array('B') where bytes are declared
+        import array
+        a = array.array("B", bytes.fromhex(spec[1]))
+        kept.append(a)
+        return bytes(a) if plain else a
+    if t == "mv":                                       # a memoryview of a bytearray the caller keeps
+        ba = bytearray(bytes.fromhex(spec[1]))
+        kept.append(ba)
+        return bytes(ba) if plain else memoryview(ba)
     if t == "nan":
         return float("nan")                 # a NEW nan object each time it is built
     if t == "dnan":
@@ -793,7 +890,12 @@ def container_steps(rng, spec, index, k0):
         steps = [["app", index, ["i", 65 + k0 % 20]], ["pop", index], ["clear", index]]
         rng.shuffle(steps)
         return steps
-    if spec[0] in ("d", "v"):
+    if spec[0] in ("ar", "mv"):         # element assignment (a bytearray with an exported memoryview cannot be resized)
+        steps = [["idx", index, 0, ["i", 66 + k0 % 20]]] if spec[1] else []
+        if spec[0] == "ar":
+            steps.append(["app", index, ["i", 67]])
+        return steps
+    if spec[0] in ("d", "v", "mp"):
         keys = [k for k, _ in spec[1]]
         sample_key = keys[0] if keys else ["s", "a"]
         newkey = (["b", b"new-key".hex()] if sample_key[0] == "b" else ["i", 424242] if sample_key[0] == "i"
@@ -825,10 +927,14 @@ def kept_specs(spec, out, top=True, path=()):
             out.append((spec, path))
         for x in spec[1]:
             kept_specs(x, out, False, path + (t,))
-    elif t == "ba":
+    elif t in ("ba", "ar", "mv"):
         out.append((spec, path))
-    elif t in ("d", "I", "v"):
-        if t in ("d", "v"):
+    elif t == "sq":
+        out.append((spec, path))
+        for x in spec[1]:
+            kept_specs(x, out, False, path + (t,))
+    elif t in ("d", "I", "v", "mp"):
+        if t in ("d", "v", "mp"):
             out.append((spec, path))
         for k, v in spec[1]:
             kept_specs(v, out, False, path + (t,))
@@ -1288,6 +1394,81 @@ def illtyped_cases(rng, cname):
     return out
 
 
+VIEW_KEYS_STR = ["a", "key", "z", "extra", "alpha", "k-one", "é"]       # never 2 characters: see ASSUMPTIONS
+VIEW_KEYS_BYTES = [b"HEAD", b"refs/heads/main", b"a", b"zzz", b"\xff"]
+
+
+def view_items(rng, as_bytes=False, branches=False):
+    n = rng.choice([0, 1, 2, 3])
+    keys = rng.sample(VIEW_KEYS_BYTES if as_bytes else VIEW_KEYS_STR, n)
+    items = []
+    for k in keys:
+        if branches:
+            v = None if rng.random() < 0.2 else g_branch(rng)
+        else:
+            v = rmeta_value(rng)
+            while v is not None and v[0] in ("l", "d"):
+                v = rmeta_value(rng)
+        items.append([["b", k.hex()] if as_bytes else ["s", k], v])
+    return items
+
+
+def foreign_container_cases(rng, cname):
+    """read-only VIEWS and other Mapping / Sequence / buffer implementations where a mapping, a tuple or bytes is accepted:
+    types.MappingProxyType, UserDict, ChainMap, a custom Mapping, a Mapping over an items() view, an ImmutableDict built
+    from one of these; a custom Sequence, array.array, memoryview.  All of them are views of a container the caller keeps
+    and mutates afterwards.  Whatever the library does with them: EITHER it refuses the argument, OR the object built is
+    immune to those mutations and equal to the twin built from the equal plain dict / tuple / bytes.  Evaluated on the
+    implementation only (the model knows dicts, lists and ImmutableDicts)."""
+    out = []
+
+    def case(fields, route="ctor"):
+        kept = []
+        for _, v in (fields if route == "ctor" else [[None, fields[0]]]):
+            kept_specs(v, kept)
+        steps = []
+        for i, (sp, path) in enumerate(kept):
+            if sp[0] in ("mp", "sq", "ar", "mv") or (route == "fromdict" and path in ((), ("mp",))):
+                steps += container_steps(rng, sp, i, 5 * i)
+        steps.append(["reach"])
+        for i, (sp, path) in enumerate(kept):
+            if sp[0] in ("mp", "sq", "ar", "mv"):
+                steps += container_steps(rng, sp, i, 5 * i + 2)[:1]
+        return {"kind": "script", "cls": cname, "route": route, "args": fields, "steps": steps, "nested_shared": [],
+                "impl_only": True, "foreign": True}
+
+    if cname == "ImmutableDict":
+        for kind in rng.sample(MAPPING_VIEWS, 3):
+            out.append(case([["data", ["mp", view_items(rng, as_bytes=rng.random() < 0.3), kind]]]))
+        return out
+    spec = no_oneshot(gen_obj(rng, cname, hashable=True))
+    fields = [[f, (["b", "11" * 20] if f == "id" and v == ["b", ""] else v)] for f, v in spec[2]]
+    for i, (f, v) in enumerate(fields):
+        if f in MAPPING_FIELDS:
+            for kind in rng.sample(MAPPING_VIEWS, 2):
+                mp = ["mp", view_items(rng, as_bytes=(f == "branches"), branches=(f == "branches")), kind]
+                out.append(case([[g, (mp if j == i else x)] for j, (g, x) in enumerate(fields)]))
+        elif f == "extra_headers":
+            sq = ["sq", [["t", [rb(rng, 2), rb(rng, 3)]] for _ in range(rng.choice([0, 1, 2]))], "seq"]
+            out.append(case([[g, (sq if j == i else x)] for j, (g, x) in enumerate(fields)]))
+        elif v is not None and v[0] == "t" and (cname, f) not in UNCHECKED_FIELDS and rng.random() < 0.7:
+            out.append(case([[g, (["sq", v[1], "seq"] if j == i else x)] for j, (g, x) in enumerate(fields)]))
+    bfields = [(i, f, v) for i, (f, v) in enumerate(fields) if v is not None and v[0] == "b" and v[1]
+               and (cname, f) not in UNCHECKED_FIELDS and f != "id"]
+    if bfields:
+        i, f, v = rng.choice(bfields)
+        node = [rng.choice(["ar", "mv"]), v[1]]
+        out.append(case([[g, (node if j == i else x)] for j, (g, x) in enumerate(fields)]))
+    # from_dict given a Mapping that is not a dict
+    if rng.random() < 0.5:
+        fd = fromdict_case(rng, cname, spec, nested_ok=False)
+        if fd is not None and fd["route"] == "fromdict":
+            d0 = fd["args"][0]
+            kind = rng.choice(["proxy", "userdict", "romap", "chainmap"])
+            out.append(case([["mp", d0[1], kind]], "fromdict"))
+    return out
+
+
 def swhid_spelling_cases(rng):
     """the SWHID converters accept several spellings of one value: enum member / its string value, CoreSWHID / its
     string, bytes path / percent-encoded str, (a, b) / "a-b".  Equal arguments, differently spelled -> equal objects"""
@@ -1440,10 +1621,12 @@ def gen(rng, tier):
                 cases.append(ac)
         for _ in range(1 if tier == "quick" else 25):
             cases += illtyped_cases(rng, cname)
+            cases += foreign_container_cases(rng, cname)
     for _ in range(n_acc * 2):
         cases.append(accessor_case(rng, "ImmutableDict", "ctor"))
     for _ in range(4 if tier == "quick" else 100):
         cases += swhid_spelling_cases(rng)
+        cases += foreign_container_cases(rng, "ImmutableDict")
     if tier != "quick":         # large mappings: order independence of == and hash
         for n in (200, 1000, 3000):
             items = [[["s", "key-%05d-%s" % (i, "x" * (i % 7))], ["i", i]] for i in range(n)]
@@ -1505,6 +1688,16 @@ def nontrivial(c):
     return False
 
 
+def _foreign_kinds(x):
+    if isinstance(x, list):
+        if x and x[0] == "mp" and len(x) == 3 and isinstance(x[2], str):
+            yield "Mapping:" + x[2]
+        elif x and x[0] in ("sq", "ar", "mv") and isinstance(x[0], str):
+            yield {"sq": "custom Sequence", "ar": "array.array", "mv": "memoryview"}[x[0]]
+        for y in x:
+            yield from _foreign_kinds(y)
+
+
 def _shapes(x):
     if isinstance(x, list):
         if x and isinstance(x[0], str) and len(x[0]) <= 5:
@@ -1542,6 +1735,9 @@ def classify(c):
     if c["kind"] == "script":
         if c.get("illtyped"):
             ks.append("ill-typed mutable container argument (list for tuple / bytearray for bytes)")
+        if c.get("foreign"):
+            for t in sorted(set(_foreign_kinds(c["args"]))):
+                ks.append("foreign-container=" + t)
         shapes = sorted(set(t for t in _shapes(c["args"]) if t in ("g", "z", "v", "noarg", "ba")))
         for t in shapes:
             ks.append("argument-shape=" + {"g": "generator", "z": "zip", "v": "dict.items() view", "noarg": "no argument",
@@ -2001,7 +2197,7 @@ def impl_script(c):
                     target[st[2]] = build(st[3], [])
                 elif op == "pop":
                     target.pop()
-            except (KeyError, IndexError):
+            except (KeyError, IndexError, BufferError, TypeError, ValueError):
                 pass
         try:
             snap = snapshot(obj, twin, same, frozen, copies)
@@ -2428,6 +2624,8 @@ def enc_args(fields, enc, route="ctor"):
 
 
 def requests(c):
+    if c["kind"] == "script" and c.get("impl_only"):
+        return []       # views / other Mapping and Sequence implementations: "refuse or be immune", decided on the implementation
     if c["kind"] == "script":
         enc = Enc()
         args = enc_args(c["args"], enc, c["route"])
@@ -2458,6 +2656,8 @@ def model(c, resp):
         # the model's objects are values and its hash is a function of the abstract content only
         # (C11_transport_hash): every transport is the identity, every coherence fact holds
         return {"transport": "identity", "bad": []}
+    if c["kind"] == "script" and c.get("impl_only"):
+        return {"impl_only": True}
     if c["kind"] == "script":
         r = resp[0].split(" ")
         if r[0] != "ok":
@@ -2508,6 +2708,8 @@ def oracle(c, ires, mres):
         return None if ires["error"] == "raises" else ires["error"]
     if c["kind"] == "script":
         if "error" in ires:
+            if c.get("foreign"):
+                return None         # a view / another Mapping or Sequence implementation may be refused (any exception)
             if ires.get("plain_twin_builds") and any(True for _ in _subclasses(c["args"])):
                 return ("building %s (%s) from a dict-subclass argument raises %s (%s) while the same arguments with an "
                         "equal plain dict build fine" % (c["cls"], c["route"], ires.get("exc"), ires.get("msg", "")[:80]))
@@ -2630,6 +2832,8 @@ def compare(c, ires, mres):
         return "swh.model.model has attrs classes the C11 harness does not generate: " + ",".join(c["classes"])
     if "model_error" in mres:
         return "model answer not understood: " + str(mres)
+    if c["kind"] == "script" and mres.get("impl_only"):
+        return None
     if c["kind"] == "script":
         if ("error" in ires) != ("error" in mres):
             return "construction: implementation %s, model %s" % (ires.get("exc", "ok"), mres.get("raw", "ok"))
